@@ -640,7 +640,9 @@ FailureClauses(s, r, l) ==
     \* ... and carries the peer's condition when one was supplied
     \* (an error that names a nearer scope the application stopped itself need not)
   + Chk("C14_PeerCondition", r.res.ok \/ ~(s.pcloseHeard /\ s.pcloseErr # "" /\ StartedAt(s, r.call) > s.deadAt) \/ r.res.cond = s.pcloseErr \/ (s.appTeardown /\ ~r.res.says_conn), l, r.op)
-  + Chk("C14_PeerCondition", r.res.ok \/ ConnDead(s) \/ r.lname = "" \/ ~SessEndedFor(s, r.lname) \/ SessErrFor(s, r.lname) = "" \/ r.res.cond = SessErrFor(s, r.lname) \/ s.appTeardown, l, "session")
+    \* (also when the connection went down right after the peer's end: the end's error is the only reason the peer ever gave; an error that
+    \*  carries a condition of the connection's close instead is accepted)
+  + Chk("C14_PeerCondition", r.res.ok \/ (ConnDead(s) /\ s.pcloseErr # "") \/ r.lname = "" \/ ~SessEndedFor(s, r.lname) \/ SessErrFor(s, r.lname) = "" \/ r.res.cond = SessErrFor(s, r.lname) \/ s.appTeardown, l, "session")
 
 \* ---------------------------------------------------------------- quiescence: obligations
 H_Quiesce(s, r, l) ==
